@@ -1,6 +1,7 @@
 import PgBifrost.Proofs.LedgerSimple.Main
 import PgBifrost.Proofs.LedgerRefine
 import PgBifrost.Proofs.LedgerSpecSound
+import PgBifrost.Proofs.SysExample
 /-!
 # C01 — no WAL position is acknowledged before its data is in the sink (property theorems)
 
@@ -100,5 +101,144 @@ theorem ledger_emit_unsafe_witness :
 
 /-- and indeed the monitor for `NoStale` rejects it -/
 example : PgBifrost.Spec.Ledger.checkNoStale staleTrace = false := by decide
+
+/-! ## Layers L2 and Top: the composed system (`Model/Sys.lean`)
+
+`Sys.run ⟨K, bcfg⟩ acts` runs the composition of the batcher model, per-worker FIFO queues, the
+sink's accept / retry answers, the shared written channel and the tracker (faithful ledger model) on
+an action list `acts` — all schedules, all retryable failures, all crash points are the universally
+quantified `acts`; `K`, `bcfg` (kind, workers, routing) are universally quantified too.
+
+`Sys.Env redeliver K big bad dom acts` (input hypotheses): the batch kind satisfies the batcher's
+laws and `NoFatal` (proved for the generic, Kinesis and Kafka batches), every fed data message is in
+the kind's domain, and the fed messages follow the replication client's output grammar
+(`Sys.gscan redeliver`, a decidable prefix-closed recogniser):
+`redeliver = false` — deliveries `BEGIN data* COMMIT`, contiguous; delivery keys pairwise distinct;
+transaction ids pairwise distinct; COMMIT LSNs strictly increasing and > 0.
+`redeliver = true` — additionally an open delivery may be interrupted (no COMMIT) by the BEGIN of a
+new delivery, under a fresh key, of the SAME transaction id.
+
+`Sys.Sched redeliver cfg acts` (scheduling hypothesis, a predicate on the action list):
+`redeliver = false`, or `Sys.redeliverQuiet cfg acts = true`: at every `feed m` where `m` is a BEGIN
+that interrupts the open delivery `k`, `Sys.keyInFlight s k = false` in the state `s` before the feed
+— no open batch counts a record of `k` in its `txns`, no queued / held batch and no unconsumed
+written report mentions `k` (everything of `k` was consumed by the tracker). This is what makes
+`NoStale` true; without it `NoStale` fails (`sys_nostale_needs_schedule_witness`, finding F1). -/
+section sys
+open PgBifrost.Batch
+variable {K : Kind} {big bad : Msg → Bool} {dom : Msg → Prop}
+
+/-- **L2: batcher/worker contract (`sys_ledger_trace_contract`).** For every action list under
+`Env` (with or without redelivery, ANY schedule), the sequence of ledger operations the tracker
+performed satisfies `Contract` (E1 seen keys unique and commits ordered, E2 written sums ≤ total and
+counts ≥ 1, E3 order, key/txn consistency); under the scheduling hypothesis (always true without
+redelivery) it also satisfies `NoStale`. -/
+theorem sys_ledger_trace_contract (bcfg : Batcher.Cfg) (redeliver : Bool) (acts : List Sys.Act)
+    (hE : Sys.Env redeliver K big bad dom acts) :
+    Contract (Sys.ledgerTrace (Sys.run ⟨K, bcfg⟩ acts)) ∧
+    (Sys.Sched redeliver ⟨K, bcfg⟩ acts → NoStale (Sys.ledgerTrace (Sys.run ⟨K, bcfg⟩ acts))) :=
+  Sys.trace_contract bcfg redeliver acts hE
+
+/-- the tracker never panics (`updateSeen` never fails) in the composed system -/
+theorem sys_tracker_never_panics (bcfg : Batcher.Cfg) (redeliver : Bool) (acts : List Sys.Act)
+    (hE : Sys.Env redeliver K big bad dom acts) (hs : Sys.Sched redeliver ⟨K, bcfg⟩ acts) :
+    (Sys.run ⟨K, bcfg⟩ acts).dead = false :=
+  Sys.never_dead bcfg redeliver acts hE hs
+
+/-- **C01 Top (`sys_ack_safe`).** Every value `v` in `acks` was emitted at some point `pre` of the
+run (`acts = pre ++ emit :: post`, the ledger at `pre` emits `v`), and AT THAT MOMENT, for every
+delivery of the run whose COMMIT LSN is ≤ `v` (deliveries fed later included: there are none, COMMIT
+LSNs increase), every data message of that delivery was already in `sinkAccepted` or was dropped as
+too big by the batch kind (`big m`). Uses `ledger_emit_safe` (L1), the trace contract (L2), the
+batcher's accounting (`txns_global_accounting`, `batch_txns_exact`, `batcher_partition_faithful`) and
+the accept rule of the composition (a written report is enqueued only after the batch's records
+were appended to `sinkAccepted`). -/
+theorem sys_ack_safe (bcfg : Batcher.Cfg) (redeliver : Bool) (acts : List Sys.Act)
+    (hE : Sys.Env redeliver K big bad dom acts) (hs : Sys.Sched redeliver ⟨K, bcfg⟩ acts) :
+    ∀ v ∈ (Sys.run ⟨K, bcfg⟩ acts).acks, ∃ pre post, acts = pre ++ Sys.Act.emit :: post ∧
+      (∃ l, (Sys.run ⟨K, bcfg⟩ pre).ledger = some l ∧ PgBifrost.Ledger.emitVal l = some v) ∧
+      ∀ c ∈ Sys.fedMsgs acts, c.op = .commit → c.lsn ≤ v →
+        ∀ m ∈ Sys.fedMsgs acts, m.op = .data → m.key = c.key →
+          m ∈ (Sys.run ⟨K, bcfg⟩ pre).sinkAccepted ∨ big m = true := by
+  obtain ⟨g, hg⟩ := hE.grammar
+  exact Sys.ack_safe_acks bcfg hE.kind redeliver acts hE.dom g hg hs
+
+/-- state form: whenever the tracker WOULD emit `v` in the current state, every data message of
+every fed delivery committed at or before `v` is in the sink or was dropped as too big -/
+theorem sys_ack_safe_state (bcfg : Batcher.Cfg) (redeliver : Bool) (acts : List Sys.Act)
+    (hE : Sys.Env redeliver K big bad dom acts) (hs : Sys.Sched redeliver ⟨K, bcfg⟩ acts)
+    (l : PgBifrost.Ledger.State)
+    (hl : (Sys.run ⟨K, bcfg⟩ acts).ledger = some l) (v : Nat) (hv : PgBifrost.Ledger.emitVal l = some v) :
+    ∀ c ∈ Sys.fedMsgs acts, c.op = .commit → c.lsn ≤ v →
+      ∀ m ∈ Sys.fedMsgs acts, m.op = .data → m.key = c.key →
+        m ∈ (Sys.run ⟨K, bcfg⟩ acts).sinkAccepted ∨ big m = true := by
+  obtain ⟨g, hg⟩ := hE.grammar
+  exact Sys.ack_safe_state bcfg hE.kind redeliver acts hE.dom g hg hs l hl v hv
+
+/-- **`sys_crash_restart_no_loss`.** At every crash point (prefix of the action list), for every
+acknowledged value `v` (in particular the largest one, from which PostgreSQL restarts), every data
+message of every delivery committed at or before `v` is already in `sinkAccepted` (or was dropped as
+too big): restarting from the acknowledged position loses nothing. -/
+theorem sys_crash_restart_no_loss (bcfg : Batcher.Cfg) (redeliver : Bool) (acts : List Sys.Act)
+    (hE : Sys.Env redeliver K big bad dom acts) (hs : Sys.Sched redeliver ⟨K, bcfg⟩ acts) :
+    ∀ crash, crash <+: acts → ∀ v ∈ (Sys.run ⟨K, bcfg⟩ crash).acks,
+      ∀ c ∈ Sys.fedMsgs crash, c.op = .commit → c.lsn ≤ v →
+        ∀ m ∈ Sys.fedMsgs crash, m.op = .data → m.key = c.key →
+          m ∈ (Sys.run ⟨K, bcfg⟩ crash).sinkAccepted ∨ big m = true :=
+  Sys.crash_restart bcfg redeliver acts hE hs
+
+/-- the same without redelivery (no scheduling hypothesis needed) -/
+theorem sys_ack_safe_noredelivery (bcfg : Batcher.Cfg) (acts : List Sys.Act)
+    (hE : Sys.Env false K big bad dom acts) :
+    ∀ v ∈ (Sys.run ⟨K, bcfg⟩ acts).acks, ∃ pre post, acts = pre ++ Sys.Act.emit :: post ∧
+      (∃ l, (Sys.run ⟨K, bcfg⟩ pre).ledger = some l ∧ PgBifrost.Ledger.emitVal l = some v) ∧
+      ∀ c ∈ Sys.fedMsgs acts, c.op = .commit → c.lsn ≤ v →
+        ∀ m ∈ Sys.fedMsgs acts, m.op = .data → m.key = c.key →
+          m ∈ (Sys.run ⟨K, bcfg⟩ pre).sinkAccepted ∨ big m = true :=
+  sys_ack_safe bcfg false acts hE (Or.inl rfl)
+
+/-- **The scheduling hypothesis cannot be dropped** (finding F1 is reachable in the composed system):
+an input following the stage-2 grammar, scheduled so that the redelivery starts while a row of the
+interrupted delivery is still in an open batch, on which the trace violates `NoStale`. -/
+theorem sys_nostale_needs_schedule_witness :
+    ∃ acts : List Sys.Act, Sys.Env true (genericKind 2) genericBig genericBad (fun _ => True) acts ∧
+      Sys.redeliverQuiet Sys.exCfg acts = false ∧
+      PgBifrost.Spec.Ledger.checkNoStale (Sys.ledgerTrace (Sys.run Sys.exCfg acts)) = false :=
+  ⟨Sys.ex2Bad, Sys.ex2BadEnv, Sys.ex2Bad_facts.1, by rw [Sys.ex2Bad_facts.2.1]; decide⟩
+
+/-! ### non-vacuity: `Sys.exActs` (two workers, a retry, a later batch accepted before an earlier
+one, a tick, three emits of which two report progress) and `Sys.ex2Acts` (an interrupted delivery
+redelivered after the tracker consumed its reports) -/
+
+example : (Sys.run Sys.exCfg Sys.exActs).acks = [104, 113] ∧
+    (Sys.run Sys.exCfg Sys.exActs).sinkAccepted.map (·.id) = [3, 6, 1, 2, 7] := ⟨Sys.ex_acks, Sys.ex_sink⟩
+
+example : Contract (Sys.ledgerTrace (Sys.run Sys.exCfg Sys.exActs)) ∧
+    NoStale (Sys.ledgerTrace (Sys.run Sys.exCfg Sys.exActs)) :=
+  ⟨(sys_ledger_trace_contract Sys.exCfg.bcfg false Sys.exActs Sys.exEnv).1,
+   (sys_ledger_trace_contract Sys.exCfg.bcfg false Sys.exActs Sys.exEnv).2 (Or.inl rfl)⟩
+
+/-- and the monitors agree on the concrete trace -/
+example : PgBifrost.Spec.Ledger.checkContract (Sys.ledgerTrace (Sys.run Sys.exCfg Sys.exActs)) = true ∧
+    PgBifrost.Spec.Ledger.checkNoStale (Sys.ledgerTrace (Sys.run Sys.exCfg Sys.exActs)) = true := by
+  rw [Sys.ex_trace]; decide
+
+example := sys_ack_safe Sys.exCfg.bcfg false Sys.exActs Sys.exEnv (Or.inl rfl) 104
+  (by rw [show (⟨genericKind 2, Sys.exCfg.bcfg⟩ : Sys.Cfg) = Sys.exCfg from rfl, Sys.ex_acks]; decide)
+
+example := sys_crash_restart_no_loss Sys.exCfg.bcfg false Sys.exActs Sys.exEnv (Or.inl rfl) (Sys.exActs.take 20)
+  (List.take_prefix _ _)
+
+/-- stage 2: all hypotheses hold together on `Sys.ex2Acts`, and the acknowledged 104 is safe -/
+example : Sys.Env true (genericKind 2) genericBig genericBad (fun _ => True) Sys.ex2Acts ∧
+    Sys.Sched true Sys.exCfg Sys.ex2Acts ∧ (Sys.run Sys.exCfg Sys.ex2Acts).acks = [104] ∧
+    NoStale (Sys.ledgerTrace (Sys.run Sys.exCfg Sys.ex2Acts)) :=
+  ⟨Sys.ex2Env, Or.inr Sys.ex2_quiet, Sys.ex2_acks,
+   (sys_ledger_trace_contract Sys.exCfg.bcfg true Sys.ex2Acts Sys.ex2Env).2 (Or.inr Sys.ex2_quiet)⟩
+
+example := sys_ack_safe Sys.exCfg.bcfg true Sys.ex2Acts Sys.ex2Env (Or.inr Sys.ex2_quiet) 104
+  (by rw [show (⟨genericKind 2, Sys.exCfg.bcfg⟩ : Sys.Cfg) = Sys.exCfg from rfl, Sys.ex2_acks]; decide)
+
+end sys
 
 end PgBifrost.Props.C01
